@@ -504,14 +504,31 @@ class Splicer:
                 pat = data[lp['pat'][0]:lp['pat'][1]].decode()
                 expr = data[lp['expr'][0]:lp['expr'][1]].decode()
                 itn = '__it%d' % i
+                nodec = '' if spec.get('decreases') else '#[verifier::exec_allows_no_decreases_clause] '
                 dele(lp['kw'][0], lp['body'][0], 'R4',
-                     '{ let mut %s = IntoIterator::into_iter(%s); #[verifier::exec_allows_no_decreases_clause] loop\n%s%s' % (itn, expr, t, indent[4:]))
+                     '{ let mut %s = IntoIterator::into_iter(%s); %s %sloop\n%s%s' % (itn, expr, spec.get('after_iter_init', ''), nodec, t, indent[4:]))
                 ins(lp['body'][0] + 1, ' let Some(%s) = %s.next() else { break; };' % (pat, itn), {'rule': 'R4'})
                 ins(lp['body'][1], ' }', {'rule': 'R4'})
             else:
                 ins(lp['body'][0], '\n' + t + indent[4:], {'contract': fnkey + '#loop%d' % i})
             if spec.get('body_prologue'):
                 ins(lp['body'][0] + 1, '\n' + indent + spec['body_prologue'] + '\n', {'rule': 'R8'})
+                self.g.count('R8')
+            if spec.get('after_loop'):
+                # ghost assertions placed right after the loop (they see the invariant and the negated loop condition)
+                txt_after = ''
+                for (atext, atags, aname) in spec['after_loop']:
+                    m = self.marker('assert', fnkey + '#loop%d' % i, f, 0, set(atags.split()), Clause(atext, atags, name=aname))
+                    txt_after += ' proof { assert(%s); /*@%s*/ }' % (atext, m)
+                ins(lp['span'][1], txt_after, {'rule': 'R8'})
+                self.g.count('R8')
+            if spec.get('body_epilogue'):
+                # ghost text before the closing brace of the loop body (a unit tail expression gets a `;` from the text itself)
+                ins(lp['body'][1] - 1, ' ' + spec['body_epilogue'] + ' ', {'rule': 'R8'})
+                self.g.count('R8')
+            if spec.get('ghost_iter') and lp['kind'] == 'for' and not getattr(u, 'desugar_for', False):
+                # Verus for-loop ghost iterator name: `for PAT in NAME: EXPR`
+                ins(lp['expr'][0], spec['ghost_iter'] + ': ', {'rule': 'R8'})
                 self.g.count('R8')
         if fc:
             for i in fc.loops:
@@ -573,6 +590,21 @@ class Splicer:
             end = arm['comma'][1] if arm['comma'] else arm['body'][1]
             new = ''.join('%s %s => %s,\n                ' % (c, guard, body) for c in cases).rstrip()
             dele(arm['pat'][0], end, 'R3', new)
+        # R13: `OPT.and_then(|x| BODY)` -> `(match OPT { Some(x) => BODY, None => None })` (the definition of Option::and_then;
+        # needed because Verus does not accept closures that capture a `&mut`)
+        if getattr(u, 'inline_and_then', False):
+            ats = sorted(r.get('and_thens', []), key=lambda a: a['call'][0])
+            last_end = -1
+            for a in ats:
+                if a['call'][0] < last_end:
+                    continue   # nested inside an already rewritten call
+                last_end = a['call'][1]
+                recv = data[a['recv'][0]:a['recv'][1]].decode()
+                prm = data[a['param'][0]:a['param'][1]].decode()
+                body = data[a['body'][0]:a['body'][1]].decode()
+                dele(a['call'][0], a['call'][1], 'R13', '(match %s { Some(%s) => %s, None => None })' % (recv, prm, body))
+                # closures inside the rewritten span are gone from the verified text
+                r['closures'] = [c for c in r['closures'] if not (a['call'][0] <= c['span'][0] < a['call'][1])]
         # R5: macros
         for m in r['macros']:
             if m['stmt'] and m['path'] in u.delete_stmt_macros:
@@ -583,12 +615,15 @@ class Splicer:
         if fc:
             b0, b1 = r['body']
             txt = data[b0:b1].decode()
-            for (rx, text) in fc.body_proofs:
+            for bp in fc.body_proofs:
+                rx, text = bp[0], bp[1]
+                after = len(bp) > 2 and bp[2] == 'after'
                 ms = list(re.finditer(rx, txt))
                 if not ms:
                     self.lose('proof-hint site %r in %s' % (rx, fnkey), tags)
                 for mm in ms:
-                    ins(b0 + len(txt[:mm.start()].encode()), text + ' ', {'rule': 'R8'})
+                    at = mm.end() if after else mm.start()
+                    ins(b0 + len(txt[:at].encode()), (' ' + text) if after else (text + ' '), {'rule': 'R8'})
                     self.g.count('R8')
             for (rx, text, wtags, wname) in getattr(fc, 'wrap_exprs', []):
                 ms = list(re.finditer(rx, txt))
